@@ -987,12 +987,21 @@ func (s *Session) RemoteAddr() jid.JID {
 // If the input stream is not closed by the deadline, the input stream is marked
 // as closed and any blocking calls to Serve will return an error.
 // This is normally called just before a call to Close.
+// Every call replaces the deadline set by the previous one; a zero value for t
+// means that there is no deadline.
 func (s *Session) SetCloseDeadline(t time.Time) error {
 	// The input context is read by Serve and canceled by closeInputStream
 	// concurrently with this call: replace it under the state lock.
 	s.stateMutex.Lock()
 	oldCancel := s.in.cancel
-	s.in.ctx, s.in.cancel = context.WithDeadline(context.Background(), t)
+	if t.IsZero() {
+		// The zero time means no deadline, exactly as it does for the read
+		// deadline of the connection below: a context whose deadline is the zero
+		// time would be expired from the start.
+		s.in.ctx, s.in.cancel = context.WithCancel(context.Background())
+	} else {
+		s.in.ctx, s.in.cancel = context.WithDeadline(context.Background(), t)
+	}
 	s.stateMutex.Unlock()
 	if oldCancel != nil {
 		oldCancel()
